@@ -844,6 +844,8 @@ class Interp:
             if nv is None:
                 raise Undefined("float of non-numeric text")
             return float(nv)
+        if name == "none":
+            return None
         if name == "count":
             if not args:
                 return self.count_value
